@@ -44,6 +44,8 @@ func checkC06(c *Ctx) Meta {
 	c.Rule("C06-ORDINAL", "the ordinal returned with a new plot key is the persisted index of that same key; a later ordinal lookup returns the index of the entry found under the address derived from the argument", 2)
 	c.Rule("C06-LOCK", "issuance and lookup run under the manager lock and inside one db.Update", 3)
 	c.Rule("C06-KEEPER", "the keeper names a new plot from both results of one GenerateNewPublicKey call", 1)
+	c.Rule("C06-FOUND", "a plot key handed out can be looked up: GenerateNewPublicKey reports success only behind the success edge of the step that enters the new key into the address index (updateManagedAddress), so GetPublicKeyOrdinal and signing find it at once; the keeper compares a file's ordinal with the wallet's ordinal exactly (no narrowing conversion)", 2)
+	checkC06Found(c)
 	c.Rule("C06-BRANCH", "the external (plot-key) counter and the internal counter never cross: every consumer of a counter (struct field, putLastIndex/updateChildNum argument, exported hdPath) receives only values produced for the same branch (fetchChildNum result, getChildNum flag, field), producers and consumers being labelled from the DB key they read or write", 10)
 	checkBranchPolarity(c, "C06-BRANCH")
 
@@ -855,5 +857,83 @@ func checkPersistOwnPath(c *Ctx, f *ssa.Function, rule string) {
 		c.OK(rule, key, c.Pos(puts[0].Pos()), "putEncryptedPubKey(info.branch, info.index, Encrypt(info.managedAddr.pubKey)) of one element")
 	} else {
 		c.Bad(rule, key, c.Pos(f.Pos()), "a public key is persisted under a (branch, index) that is not its own")
+	}
+}
+
+// checkC06Found: C06-FOUND.
+func checkC06Found(c *Ctx) {
+	rule := "C06-FOUND"
+	if f := c.MustFn(rule, "poc/wallet/keystore", "(*KeystoreManagerForPoC).GenerateNewPublicKey"); f != nil {
+		key := "GenerateNewPublicKey:success-only-after-index-refresh"
+		var refresh *ssa.Call
+		allInstrs(f, func(in ssa.Instruction) {
+			cl, ok := in.(*ssa.Call)
+			if !ok {
+				return
+			}
+			for _, a := range cl.Call.Args {
+				if mc, isMC := a.(*ssa.MakeClosure); isMC {
+					if len(callsIn(mc.Fn.(*ssa.Function), "(*"+tAddrMgr+").updateManagedAddress")) > 0 {
+						refresh = cl
+					}
+				}
+			}
+			if isCall(cl, "(*"+tAddrMgr+").updateManagedAddress") {
+				refresh = cl
+			}
+		})
+		if refresh == nil {
+			c.Bad(rule, key, c.Pos(f.Pos()), "reason=anchor-missing: the step entering the new key into the address index")
+		} else if len(errResults(refresh)) == 0 || len(nilTestsOf(f, errResults(refresh)[0])) == 0 {
+			c.Bad(rule, key, c.Pos(refresh.Pos()), "the result of the index refresh is not tested")
+		} else {
+			r := reach(f, refresh, errorEdgeCut(f, refresh, false), nil)
+			bad := false
+			for _, ret := range returnsOf(f) {
+				if isNilErrorReturn(ret) && r(ret) {
+					bad = true
+				}
+			}
+			if bad {
+				c.Bad(rule, key, c.Pos(refresh.Pos()), "GenerateNewPublicKey can report success although entering the key into the address index failed: the key it returned is unknown to GetPublicKeyOrdinal and to signing until the next restart")
+			} else {
+				c.OK(rule, key, c.Pos(refresh.Pos()), "a failed index refresh fails the request")
+			}
+		}
+	}
+	if f := c.MustFn(rule, "poc/engine/spacekeeper/capacity", "generateInitialIndex"); f != nil {
+		key := "generateInitialIndex:ordinal-compared-exactly"
+		gs := callsIn(f, "("+pkgCapacity+".PoCWallet).GetPublicKeyOrdinal")
+		ps := callsIn(f, pkgCapacity+".parseMassDBArgsFromString")
+		if len(gs) != 1 || len(ps) != 1 {
+			c.Bad(rule, key, c.Pos(f.Pos()), "reason=anchor-missing: GetPublicKeyOrdinal / parseMassDBArgsFromString")
+			return
+		}
+		ord, idx := resultOf(gs[0], 0), resultOf(ps[0], 0)
+		found, lossy := false, ""
+		allInstrs(f, func(in ssa.Instruction) {
+			bo, ok := in.(*ssa.BinOp)
+			if !ok || (bo.Op != token.EQL && bo.Op != token.NEQ) || ord == nil || idx == nil {
+				return
+			}
+			sx, sy := backSlice(bo.X), backSlice(bo.Y)
+			if (sx.has(idx) && sy.has(ord)) || (sx.has(ord) && sy.has(idx)) {
+				found = true
+				if lc := lossyConversion(bo.X); lc != "" {
+					lossy = lc
+				}
+				if lc := lossyConversion(bo.Y); lc != "" {
+					lossy = lc
+				}
+			}
+		})
+		switch {
+		case !found:
+			c.Bad(rule, key, c.Pos(f.Pos()), "the ordinal in the file name is never compared with the wallet's ordinal for the key")
+		case lossy != "":
+			c.Bad(rule, key, c.Pos(f.Pos()), "the ordinal comparison passes an operand through the narrowing conversion "+lossy+": a file whose ordinal differs from the wallet's by a multiple of 2^32 is taken for the key's plot")
+		default:
+			c.OK(rule, key, c.Pos(f.Pos()), "file ordinal == wallet ordinal, compared without narrowing")
+		}
 	}
 }
